@@ -307,7 +307,7 @@ def decorate(shapes, seed=0, feat=frozenset()):
                 info["shape"] = "disabled"       # (not a candidate for references or triggers)
         f.rows.append(row)
         f.info.append(info)
-        if is_q and not off:
+        if is_q and not off and row.get("type") not in EXTERNAL_TYPES:      # (an external-instance row has no node: not a referable name)
             f.qnames.append(info["name"])
             if row["type"] in ("integer", "int"):
                 f.intnames.append(info["name"])
